@@ -54,7 +54,8 @@ PROPS = {
     },
     'C08': {
         'engines': [{'name': 'world', 'quick_args': ['-n', '70'], 'thorough_args': ['-n', '1200']}, {'name': 'filter'}, PROOFS],
-        'also_report': ('C17',),
+        # what a NEW_VIEW's embedded votes must be for it to count is C07's certificate predicate: its findings on these worlds (no standalone PREPREPAREs here) are reported too
+        'also_report': ('C17', 'C07'),
         'corr_modules': ['Term'],
         'trusted_base': ['theorems in coq/props/C08.v about coq/theories/Term.v (proofs in TermFacts.v)'],
         'assumptions': COMMON_ASSUME + ['signature flags as in C07', 'membership = ids of the committee returned by Membership for the height'],
